@@ -6,7 +6,7 @@ Model: coq/Model/SaxFilter.v (the SAXParser handler); spec: coq/Spec/Projection.
     the projection (filter), whatever the cuts."""
 import itertools, json, os, glob
 ID = 'C18'
-COQ_ROOTS = ['Props/C18.v']
+COQ_ROOTS = ['Props/C18.v', 'GenProps/Sax_consts.v']
 RULE = ('(a) handler level: documents from a grammar of Junos-style replies (plain/nc: reply tag, namespace declarations, '
         'attributes with quotes/newlines, text with markup characters, CDATA, character references, non-ASCII, pretty-printing '
         'white space, repeated roots, one-level wrapper, and flavours that leave the proved class: name clashes, mixed content, '
